@@ -1,6 +1,7 @@
 import Driver.Proto
 import Driver.C21
 import Driver.C23
+import Driver.C28
 /-
   Model driver: reads one request per line on stdin (`<suite> <op> <args…>`), answers one
   line per request on stdout.  Imports models only (no Mathlib, no proofs).
@@ -11,6 +12,7 @@ def dispatch (fs : List String) : String :=
   match fs with
   | "c21" :: rest => Driver.c21 rest
   | "c23" :: rest => Driver.c23 rest
+  | "c28" :: rest => Driver.c28 rest
   | _ => "bad-op"
 
 partial def loop (h : IO.FS.Stream) (out : IO.FS.Stream) : IO Unit := do
